@@ -329,6 +329,16 @@ pub fn gen_raiser(u: &mut Chooser, t: &T) -> E {
         1 => E::bin(Op::Add, E::Lit(V::Int(i64::MAX)), E::Lit(V::Int(1))),
         _ => E::bin(Op::Rem, E::Lit(V::Int(5)), E::Lit(V::Int(0))),
     };
+    // arithmetic over operand types that have no such operator (mixing int and uint is an error, not a coercion)
+    if u.chance(1, 4) {
+        match t {
+            T::Int => return E::bin(*u.pick(&[Op::Add, Op::Sub, Op::Mul, Op::Div, Op::Rem]), E::Lit(V::Int(u.range(1, 9) as i64)), E::Lit(V::UInt(u.range(1, 9) as u64))),
+            T::UInt => return E::bin(*u.pick(&[Op::Add, Op::Mul]), E::Lit(V::UInt(1)), E::Lit(V::Int(2))),
+            T::List(_) => return E::bin(Op::Add, E::List(vec![]), E::Map(vec![])),
+            T::Str => return E::bin(Op::Add, E::Lit(V::s("a")), E::Lit(V::Int(1))),
+            _ => {}
+        }
+    }
     match t {
         T::Int => int_err,
         T::Bool => E::bin(Op::Gt, int_err, E::Lit(V::Int(0))),
